@@ -165,7 +165,7 @@ class Source:
         mm = re.search(r'^\s*(pub(\([a-z]+\))?\s+)?const\s+%s\s*:' % re.escape(name), self.mask, re.M)
         if not mm:
             raise ScanError('lost anchor: const %s not found in %s' % (name, self.path))
-        end = self.mask.find(';', mm.end())
+        end = first_at_depth0(self.mask, mm.end(), ';')
         return line_start(self.text, mm.end() - 1), end + 1
 
     def impl_blocks(self):
